@@ -133,8 +133,11 @@ def dnd_placeholder(chk, mod):
                 vol = vol * d
             core.side('size()==4+4*ndim+24*volume', I(ph.size()) == 4 + 4 * nd + 24 * (vol if nd else 1))
             kinds = [t[2] for t in sink.tokens]
-            core.side('tokens: ndim, dims, two f64 arrays, one u64 array', z3.BoolVal(
-                kinds == ['u32'] + ['u32'] * nd + (['array:zeros:float64', 'array:zeros:float64', 'array:zeros:uint64'] if nd else ['array'] * 3)))
+            # ndim and the dims as u32, then the image: zeros (two f64 arrays and one u64 array of the declared shape -- together
+            # 24 bytes per bin, checked above --, however they are written: as arrays or as raw zero bytes)
+            rest = sink.tokens[1 + nd:]
+            zero = all(t[2].startswith('array') or (t[2] == 'raw' and isinstance(t[3], (bytes, bytearray)) and not any(t[3])) for t in rest)
+            core.side('tokens: ndim, dims, two f64 arrays, one u64 array', z3.BoolVal(kinds[:1 + nd] == ['u32'] * (1 + nd) and bool(rest) and zero))
             return None
         paths = chk.explore(call, base=base, catch=(Exception,))
         for p in paths:
